@@ -171,6 +171,14 @@ def entry_points(case, unit="rad"):
         yield "SE3(scalars)", lambda: SE3(*t)
         yield "SE3(packed)", lambda: SE3(t)
         yield "SE3.Tx*Ty*Tz", lambda: SE3.Tx(t[0]) * SE3.Ty(t[1]) * SE3.Tz(t[2])
+        if all(float(c).is_integer() for c in t):
+            # Python ints: the stored matrix is then of INTEGER dtype - a hazard for any in-place arithmetic later
+            ti = [int(c) for c in t]
+            yield "SE3(int scalars)", lambda: SE3(ti[0], ti[1], ti[2])
+            yield "SE3(int list)", lambda: SE3(ti)
+            yield "base.transl(int scalars)", lambda: base.transl(ti[0], ti[1], ti[2])
+            if ti[2] == 0:
+                yield "SE2(int x,y)", lambda: SE2(ti[0], ti[1])
         if t[2] == 0:
             yield "base.transl2", lambda: base.transl2(t[:2])
             yield "SE2(x,y)", lambda: SE2(t[0], t[1])
